@@ -103,7 +103,7 @@ theorem wf_leave_continues (env : Env) (fuel : Nat) (kvs : List (Str × Json)) (
       handleErr env fuel (.obj kvs) name state raw ctx r (S "States.DataLimitExceeded") (S "m") st ∨
     ∃ next, defined kvs next = true ∧
       leave env (fuel + 1) (.obj kvs) name state raw data ctx r st =
-        runFrom env fuel (.obj kvs) next data ctx 0 (st.exit (stateType state) name data) := by
+        runFrom env fuel (.obj kvs) next data ctx 0 ((st.exit (stateType state) name data).handover next) := by
   by_cases hlen : (render data).length > env.maxData
   · right; left
     by_cases hE : isTrue (fld state "End") = true
